@@ -3117,6 +3117,8 @@ func (c *Ctx) BitWidthInverse() []core.Ob {
 								walk(e)
 							}
 						case *ssa.Const:
+						case *ssa.Extract:
+							walk(x.Tuple)
 						case *ssa.Call:
 							ok := false
 							if x.Call.StaticCallee() == inv {
@@ -3125,6 +3127,15 @@ func (c *Ctx) BitWidthInverse() []core.Ob {
 										ok = true
 									}
 								}
+							} else if g := x.Call.StaticCallee(); g != nil && inPkgs(g, "level") && g != size {
+								// a helper of the package that normalises the recovered width (statesPaletteFor(n, pat)):
+								// its integer arguments are the sources
+								for _, a := range x.Call.Args {
+									if bt, isB := a.Type().Underlying().(*types.Basic); isB && bt.Info()&types.IsInteger != 0 {
+										walk(a)
+									}
+								}
+								return
 							}
 							if ok {
 								fromInv = true
